@@ -714,3 +714,87 @@ pub fn generate_paths(rng: &mut Rng, n: usize, _tier: &str) -> Vec<String> {
     }
     out
 }
+
+/// OP stream at the operand-size limits of LIMITS / DISABLE_OP (256, 1024, 2048 bytes; 256 for
+/// multiply factors and modpow operands, 1024 for products): every bignum operator x boundary sizes x
+/// {LIMITS, DISABLE_OP, both, none} x {MALACHITE} x {NEW_COST_MODEL}
+pub fn generate_op_limits(rng: &mut Rng, n: usize, _tier: &str) -> Vec<String> {
+    let mut out = Vec::new();
+    let mut id = 0usize;
+    let sizes = [255usize, 256, 257, 1023, 1024, 1025, 2047, 2048, 2049];
+    let small = [1usize, 2, 255, 256, 257, 1024, 1025];
+    let mk = |rng: &mut Rng, len: usize| -> T {
+        let mut b = rng.bytes(len);
+        if len > 0 {
+            // random sign, never a redundant leading byte by accident (that is a separate case below)
+            b[0] = match rng.below(4) { 0 => 0x7f, 1 => 0x80, 2 => 0x00, _ => b[0] | 1 };
+        }
+        T::Atom(b)
+    };
+    let flag_sets: Vec<u32> = {
+        let mut v = vec![];
+        for base in [0u32, 0x40, 0x200, 0x240] {
+            for mal in [0u32, 0x1000] {
+                for nm in [0u32, 0x2000] {
+                    v.push(base | mal | nm);
+                }
+            }
+        }
+        v
+    };
+    let mut push = |name: &str, flags: u32, args: Vec<T>| {
+        out.push(format!("OP l{} {} {:x} {} {}", id, name, flags, 100_000_000_000u64, trees::to_hex(&T::list(args))));
+        id += 1;
+    };
+    for name in ["op_div", "op_divmod", "op_mod"] {
+        for &a0 in &sizes {
+            for &a1 in &small {
+                let x = mk(rng, a0);
+                let y = mk(rng, a1);
+                for &f in &flag_sets {
+                    push(name, f, vec![x.clone(), y.clone()]);
+                }
+            }
+        }
+    }
+    for &b in &[1usize, 255, 256, 257] {
+        for &e in &[1usize, 2, 255, 256, 257] {
+            for &m in &[1usize, 255, 256, 257] {
+                if b + e + m > 600 {
+                    continue; // keep modpow cheap
+                }
+                let (x, mut y, z) = (mk(rng, b), mk(rng, e), mk(rng, m));
+                if let T::Atom(ref mut yb) = y {
+                    if !yb.is_empty() {
+                        yb[0] &= 0x7f; // non-negative exponent
+                    }
+                }
+                for &f in &flag_sets {
+                    push("op_modpow", f, vec![x.clone(), y.clone(), z.clone()]);
+                }
+            }
+        }
+    }
+    for &a0 in &[255usize, 256, 257, 600, 1023, 1024, 1025] {
+        for &a1 in &[1usize, 255, 256, 257, 500] {
+            let x = mk(rng, a0);
+            let y = mk(rng, a1);
+            for &f in &flag_sets {
+                push("op_multiply", f, vec![x.clone(), y.clone()]);
+                push("op_multiply", f, vec![y.clone(), x.clone(), int(3)]);
+            }
+        }
+    }
+    for _ in 0..n {
+        // random picks with redundant leading sign bytes at the boundaries
+        let name = *rng.pick(&["op_div", "op_divmod", "op_mod", "op_multiply"]);
+        let l0 = *rng.pick(&sizes);
+        let mut b = vec![if rng.chance(1, 2) { 0u8 } else { 0xff }; 1];
+        b.extend(rng.bytes(l0 - 1));
+        let l1 = *rng.pick(&small);
+        let y = mk(rng, l1);
+        let fl = *rng.pick(&flag_sets);
+        push(name, fl, vec![T::Atom(b), y]);
+    }
+    out
+}
